@@ -265,6 +265,15 @@ def build_pair_package(rng, gated: set):
                     pn, _ = ns.fresh()
                     pn = pn.strip("_") if pn.startswith("__") else pn
                     body.append(f"    def {mn}(self, {pn}: {tv if generic else 'int'}) -> None: ...\n\n")
+            if rng.random() < 0.4:
+                # two members whose different Python names become one name under the conversion (a snake_case method next to its
+                # legacy camelCase alias, a name with and without trailing underscore): both stay, each with its Python name
+                k = len(lines)
+                pair = rng.choice([(f"is_ready_{k}", f"isReady{k}"), (f"get_value_{k}x", f"getValue{k}x"), (f"size{k}_", f"size{k}"), (f"load_all{k}", f"loadAll{k}")])
+                first, second = pair if rng.random() < 0.5 else pair[::-1]
+                body.append(f"    def {first}(self) -> int: ...\n\n    def {second}(self) -> int: ...\n\n")
+                if rng.random() < 0.5:
+                    body.append(f"    @property\n    def prop_value_{k}(self) -> int: ...\n\n    @property\n    def propValue{k}(self) -> int: ...\n\n")
             if rng.random() < 0.3:
                 inner, isid = ns.fresh(cls=True)
                 shapes_used.add("nested:" + isid)
